@@ -70,6 +70,7 @@ func genConfigType(r *vlib.R, withChild bool, depth int) *genType {
 		g.Fields = append(g.Fields, fieldSpec{Name: "Parent", Tag: "node", Shape: "parent"})
 	}
 	n := 1 + r.Intn(7)
+	var lastPtrStruct reflect.Type
 	for i := 0; i < n; i++ {
 		name := fmt.Sprintf("F%d", i)
 		tagKind := "point"
@@ -87,6 +88,11 @@ func genConfigType(r *vlib.R, withChild bool, depth int) *genType {
 			t, shape = reflect.PointerTo(el), "ptr"
 		case 3:
 			t, shape = reflect.PointerTo(flatStructType(r, r.Chance(0.5))), "ptrstruct"
+			if lastPtrStruct != nil && r.Chance(0.5) {
+				// two fields of one struct type: whatever the codec remembers per type is shared by them
+				t = lastPtrStruct
+			}
+			lastPtrStruct = t
 		case 4, 5:
 			t, shape = reflect.SliceOf(el), "slice"
 		case 6:
